@@ -1594,6 +1594,55 @@ impl ZooVal for Names {
     }
 }
 
+// ---------------------------------------------------------------------------------------------
+// "Tail*" family: a small value that ENDS in one leaf type with a hand-written, multi-part deserializer. Whatever
+// a deserializer does when the input ends in the middle of ITS bytes (return an error - or quietly fill in a default)
+// is only visible when nothing follows it; and the last bytes are never zero, so a filled-in zero is another value.
+// ---------------------------------------------------------------------------------------------
+macro_rules! tail_subject {
+    ($name:ident, $t:ty, |$rng:ident| $gen:expr) => {
+        #[derive(Savefile, Debug, PartialEq)]
+        pub struct $name {
+            pub head: u32,
+            pub tail: $t,
+        }
+        impl ZooVal for $name {
+            fn gen($rng: &mut Rng, _sc: u8, _hint: usize) -> Self {
+                $name { head: $rng.next_u64() as u32, tail: $gen }
+            }
+            fn walk(&self, w: &mut Walker) {
+                w.prim(5);
+            }
+        }
+    };
+}
+fn nz32(rng: &mut Rng) -> u32 {
+    (rng.next_u64() as u32) | 0x0101_0101
+}
+fn nz64(rng: &mut Rng) -> u64 {
+    rng.next_u64() | 0x0101_0101_0101_0101
+}
+tail_subject!(TailSock, SocketAddr, |rng| if rng.chance(1, 3) {
+    SocketAddr::V4(std::net::SocketAddrV4::new(Ipv4Addr::new(10, 1, 2, 3), (nz32(rng) as u16) | 0x0101))
+} else {
+    SocketAddr::V6(std::net::SocketAddrV6::new(Ipv6Addr::new(0xfe80, 0, 0, 0, 0x1ff, 0xfe23, 0x4567, 0x890a), 4711, nz32(rng), nz32(rng)))
+});
+tail_subject!(TailIp, IpAddr, |rng| IpAddr::V6(Ipv6Addr::new(0xfe80, 1, 2, 3, 4, 5, 6, (nz32(rng) as u16) | 0x0101)));
+tail_subject!(TailTime, SystemTime, |rng| if rng.chance(1, 2) {
+    SystemTime::UNIX_EPOCH + Duration::new(nz32(rng) as u64, 1 + rng.below(999_999_998) as u32)
+} else {
+    SystemTime::UNIX_EPOCH - Duration::new((nz32(rng) >> 4) as u64, 1 + rng.below(999_999_998) as u32)
+});
+tail_subject!(TailDur, Duration, |rng| Duration::new(nz64(rng) >> 8, 0x0101_01 + rng.below(900_000_000) as u32));
+tail_subject!(TailRange, std::ops::Range<u32>, |rng| nz32(rng)..nz32(rng));
+tail_subject!(TailTup, (u8, u32, u64), |rng| ((nz32(rng) as u8) | 1, nz32(rng), nz64(rng)));
+tail_subject!(TailOpt, Option<Result<u32, u16>>, |rng| Some(if rng.chance(1, 2) { Ok(nz32(rng)) } else { Err((nz32(rng) as u16) | 0x0101) }));
+tail_subject!(TailU128, u128, |rng| ((nz64(rng) as u128) << 64) | nz64(rng) as u128);
+tail_subject!(TailChrono, chrono::DateTime<chrono::Utc>, |rng| chrono::DateTime::<chrono::Utc>::from_timestamp_nanos(((nz64(rng) >> 2) as i64) * if rng.chance(1, 2) { 1 } else { -1 }));
+tail_subject!(TailBox, Box<(u32, u64)>, |rng| Box::new((nz32(rng), nz64(rng))));
+tail_subject!(TailCell, std::cell::RefCell<(u16, u64)>, |rng| std::cell::RefCell::new(((nz32(rng) as u16) | 0x0101, nz64(rng))));
+tail_subject!(TailF64, f64, |rng| f64::from_bits(nz64(rng) & 0x7fef_ffff_ffff_ffff));
+
 macro_rules! subj {
     ($t:ty, $n:expr) => {
         &Subj::<$t>($n, std::marker::PhantomData) as &dyn Subject
@@ -1623,6 +1672,18 @@ pub fn subjects() -> Vec<&'static dyn Subject> {
         &UpSubj as &dyn Subject,
         subj!(VerRec, "VerRec"),
         subj!(Names, "Names"),
+        subj!(TailSock, "TailSock"),
+        subj!(TailIp, "TailIp"),
+        subj!(TailTime, "TailTime"),
+        subj!(TailDur, "TailDur"),
+        subj!(TailRange, "TailRange"),
+        subj!(TailTup, "TailTup"),
+        subj!(TailOpt, "TailOpt"),
+        subj!(TailU128, "TailU128"),
+        subj!(TailChrono, "TailChrono"),
+        subj!(TailBox, "TailBox"),
+        subj!(TailCell, "TailCell"),
+        subj!(TailF64, "TailF64"),
     ]
 }
 pub fn subject(name: &str) -> &'static dyn Subject {
